@@ -8,7 +8,7 @@
 (* Same invariants and same emission as MC_C10 (documents too long for its *)
 (* length bound).                                                          *)
 (***************************************************************************)
-EXTENDS Macro, Pools, TLC, Json
+EXTENDS Catalog, TLC, Json
 
 D(k, p, e, b, c) == [t |-> "D", k |-> k, p |-> p, a |-> "", e |-> e, b |-> b, c |-> c]
 Resp(code) == D("RESP", <<"any">>, FALSE, "", code)
@@ -58,6 +58,12 @@ Transparent == TreeBuilds =>
      ELSE /\ (X.res = "ok") = (Y.res = "ok")
           /\ (X.res = "ok" => Shape(X) = Shape(Y))
           /\ (X.res # "ok" => X.res = Y.res)
+\* ... and so is the whole build: the catalog of the macro form is the catalog of the in-place document (M: this is
+\* where a rule of Catalog.tla that is keyed by the place a directive was written, not by the directive, shows up)
+J == D("JSIGHT", <<"0.3">>, FALSE, "", "")
+BM == Build(<<J>> \o doc)
+BI == Build(<<J>> \o InlineDoc(T, CM.macros))
+CatalogTransparent == (TreeBuilds /\ X.res = "ok") => (BM.res = BI.res /\ BM.skel = BI.skel /\ (BM.res = "err" => BM.cls = BI.cls))
 NoMacroNodes == X.res = "ok" => \A j \in 1..Len(X.nodes) : X.nodes[j].k \notin {"MACRO", "PASTE"}
 
 ASSUME PrintT("L " \o ToJson(PoolsJson))
